@@ -282,6 +282,9 @@ Definition cg := "client_generators/".
 Local Arguments St : simpl never.
 
 Definition site_table : list site := [
+  St "client_generators/arguments.py" "ArgumentsGenerator._get_reserved_argument_names" "construct"
+    "{'self', KWARGS_NAMES, 'gql', UNSET_NAME}" SkNone "";
+  St "client_generators/arguments.py" "ArgumentsGenerator.generate" "member" "used_names" SkMember "";
   St "client_generators/client.py" "ClientGenerator.get_variable_names" "construct" "set((arg.arg for arg in arguments.args))" SkNone "";
   St "client_generators/client.py" "ClientGenerator.get_variable_names" "member" "argument_names" SkMember "";
   St "client_generators/comments.py" "get_timestamp_comment" "ambient" "datetime.now()" SkInput
